@@ -656,27 +656,16 @@ theorem normalizedForBounds_mem : ∀ (cs0 cs : List (Constraint (Ext K))),
 theorem cmpHolds_of_cmpK {c : Cmp} {a b : K} (h : cmpK c a b = true) : BoundsSem.cmpHolds c a b := by
   cases c <;> simp_all [cmpK, BoundsSem.cmpHolds]
 
-/-- **the published domain contains every source-feasible assignment** — through the normalisation the
-bound inference reads (C10), `analyze`, `enforceable` and `apply_to_domain` (C07). -/
-theorem sound_pipeline {m : Model (Ext K)} {t : K} (ht : 0 ≤ t) (maxSteps : Nat)
-    (hm : FragModel true m m.domain) (hok : DeclOK m.domain) {cs : List (Constraint (Ext K))}
-    (hcs : Compile.normalizedForBounds m.constraints = some cs) (ρ : String → K) (hs : srcFeasible m ρ = true) :
+/-- the published domain contains every assignment that satisfies the declared domains and, after the unused
+variables are moved into their ranges, the constraints the bound inference reads — `analyze`, `enforceable` and
+`apply_to_domain` (C07). -/
+theorem sound_pipeline_core {m : Model (Ext K)} {t : K} (ht : 0 ≤ t) (maxSteps : Nat)
+    (hok : DeclOK m.domain) {cs : List (Constraint (Ext K))} (ρ : String → K) (hd : DomSat ρ m.domain)
+    (hholds : ∀ c' ∈ cs, Holds (fixUnused ρ m.domain) c') :
     DomSat ρ (((Analyzer.analyze m.domain cs (.fin t) maxSteps).enforceable m.domain).applyToDomain m.domain) := by
-  obtain ⟨hc, hd⟩ := (srcFeasible_iff m ρ).mp hs
   set ρ' := fixUnused ρ m.domain with hρ'
   have hdom : ∀ d ∈ m.domain, InDomain d.ty (ρ' d.name) := fixUnused_inDomain hok hd
   have hag : ∀ x, inScope m.domain x → ρ' x = ρ x := fun x hx => fixUnused_used hx
-  have hholds : ∀ c' ∈ cs, Holds ρ' c' := by
-    intro c' hc'
-    obtain ⟨c, hcm, l, r, hl, hr, rfl⟩ := normalizedForBounds_mem _ _ hcs (fun c hc => (hm.cons c hc).notAssert) c' hc'
-    have hsc := hm.cons c hcm
-    obtain ⟨a, b, ha, hb⟩ := hsc.defined ρ
-    have hcmp : cmpK c.cmp a b = true := by
-      have := hc c hcm
-      rwa [constraintHolds_arith hsc.notAssert ha hb] at this
-    have ha' : eval ρ' c.lhs = some a := by rw [eval_congr c.lhs (fun x hx => hag x (hsc.lhs.2 x hx))]; exact ha
-    have hb' : eval ρ' c.rhs = some b := by rw [eval_congr c.rhs (fun x hx => hag x (hsc.rhs.2 x hx))]; exact hb
-    exact ⟨a, b, normalize_eval_frag hsc.lhs.1 hl ha', normalize_eval_frag hsc.rhs.1 hr hb', cmpHolds_of_cmpK hcmp⟩
   have htolA : (Analyzer.analyze m.domain cs (.fin t) maxSteps).tolerance = .fin t := by
     unfold Analyzer.analyze Analyzer.propagate
     exact propagateLoop_tolerance _ _ _ _ _ _ _
@@ -706,6 +695,28 @@ theorem sound_pipeline {m : Model (Ext K)} {t : K} (ht : 0 ≤ t) (maxSteps : Na
     exact ⟨d, hdm, rfl, hu⟩
   have := inDomain_of_InDomain (hpub d' hd')
   rwa [hag _ hsc] at this
+
+/-- **the published domain contains every source-feasible assignment** — through the normalisation the
+bound inference reads (C10), `analyze`, `enforceable` and `apply_to_domain` (C07). -/
+theorem sound_pipeline {m : Model (Ext K)} {t : K} (ht : 0 ≤ t) (maxSteps : Nat)
+    (hm : FragModel true m m.domain) (hok : DeclOK m.domain) {cs : List (Constraint (Ext K))}
+    (hcs : Compile.normalizedForBounds m.constraints = some cs) (ρ : String → K) (hs : srcFeasible m ρ = true) :
+    DomSat ρ (((Analyzer.analyze m.domain cs (.fin t) maxSteps).enforceable m.domain).applyToDomain m.domain) := by
+  obtain ⟨hc, hd⟩ := (srcFeasible_iff m ρ).mp hs
+  refine sound_pipeline_core ht maxSteps hok ρ hd ?_
+  have hag : ∀ x, inScope m.domain x → fixUnused ρ m.domain x = ρ x := fun x hx => fixUnused_used hx
+  intro c' hc'
+  obtain ⟨c, hcm, l, r, hl, hr, rfl⟩ := normalizedForBounds_mem _ _ hcs (fun c hc => (hm.cons c hc).notAssert) c' hc'
+  have hsc := hm.cons c hcm
+  obtain ⟨a, b, ha, hb⟩ := hsc.defined ρ
+  have hcmp : cmpK c.cmp a b = true := by
+    have := hc c hcm
+    rwa [constraintHolds_arith hsc.notAssert ha hb] at this
+  have ha' : eval (fixUnused ρ m.domain) c.lhs = some a := by
+    rw [eval_congr c.lhs (fun x hx => hag x (hsc.lhs.2 x hx))]; exact ha
+  have hb' : eval (fixUnused ρ m.domain) c.rhs = some b := by
+    rw [eval_congr c.rhs (fun x hx => hag x (hsc.rhs.2 x hx))]; exact hb
+  exact ⟨a, b, normalize_eval_frag hsc.lhs.1 hl ha', normalize_eval_frag hsc.rhs.1 hr hb', cmpHolds_of_cmpK hcmp⟩
 
 /-! ### C01 / C02 for the whole pipeline `Compile.linearize` -/
 
